@@ -143,7 +143,7 @@ func ovpnMutate(r Rand, in []byte, tcp bool) []byte {
 	if len(msg) < 14 {
 		return GenericMutate(r, in)
 	}
-	switch choose(r, 16, "ovpn.mut") {
+	switch choose(r, 17, "ovpn.mut") {
 	case 0: // TCP length prefix, message untouched
 		if tcp {
 			return cat(be16(pick(r, "ovpn.prefix", 0, 1, 13, 14, 15, len(msg)-1, len(msg)+1, 86, 87, 343, 344, 1078, 1079, 65535)), msg)
@@ -199,6 +199,15 @@ func ovpnMutate(r Rand, in []byte, tcp bool) []byte {
 		return cat(be16(len(msg)), msg)
 	case 14: // two messages in a row
 		return cat(ovpnFrame(msg, tcp), ovpnFrame(msg, tcp))
+	case 15: // wrapped client key cut short, its length field kept consistent (a genuine client reset, truncated)
+		if msg[0] != ovpnOpResetV3 || len(msg) < 120 {
+			msg = clone(pick(r, "ovpn.c2base", ovpn_crypt2Packet5, ovpn_crypt2Packet6))
+		}
+		k := 1 + choose(r, 12, "ovpn.wkccut")
+		wl := int(msg[len(msg)-2])<<8 | int(msg[len(msg)-1])
+		if k < len(msg)-60 && wl > k {
+			msg = cat(msg[:len(msg)-2-k], be16(wl-k))
+		}
 	default:
 		return GenericMutate(r, in)
 	}
